@@ -91,4 +91,23 @@ def sm3_hash (msg : List UInt8) : Outcome (List UInt8) :=
     | .panic => .panic
   | _ => .panic
 
+/-- Streaming evaluation of `sm3_hash (block^count ++ tail)` for a 64-byte `block` without
+materialising the message (driver op `sm3rep`; `Proofs.SM3.sm3_hash_rep_eq` relates it to `sm3_hash`). -/
+def sm3_hash_rep (block : List UInt8) (count : Nat) (tail : List UInt8) : Outcome (List UInt8) :=
+  if block.length ≠ 64 then .err "sm3rep-needs-64-byte-block" else
+  let b := block.toArray
+  let v := (List.range count).foldl (fun v _ => cf v b) Gen.SM3.IV.toArray
+  let total := 64 * count + tail.length
+  let bitLength : UInt64 := UInt64.ofNat (total * 8)
+  let m2 := padZeros (tail ++ [0x80])
+  let m3 := m2 ++ [(bitLength >>> 56 &&& 0xff).toUInt8, (bitLength >>> 48 &&& 0xff).toUInt8,
+                   (bitLength >>> 40 &&& 0xff).toUInt8, (bitLength >>> 32 &&& 0xff).toUInt8,
+                   (bitLength >>> 24 &&& 0xff).toUInt8, (bitLength >>> 16 &&& 0xff).toUInt8,
+                   (bitLength >>> 8 &&& 0xff).toUInt8, (bitLength &&& 0xff).toUInt8]
+  match blockLoop m3 0 v with
+  | .ok v => .ok (v.toList.flatMap fun (x : UInt32) =>
+      [(x >>> 24).toUInt8, (x >>> 16).toUInt8, (x >>> 8).toUInt8, x.toUInt8])
+  | .err e => .err e
+  | .panic => .panic
+
 end GmVerif.Impl.SM3
